@@ -98,14 +98,15 @@ Theorem C11_assign_exact : forall ops s0 a vals, wf s0 -> (a < 3)%nat ->
   let s := fst (q_run s0 ops) in
   let sc := at3 Q 0%Q (get Q (heap s) (h_s s)) a in let off := at3 Q 0%Q (get Q (heap s) (h_o s)) a in
   let r := q_step s (Assign a vals) in
+  let cols := grow (ints s) (length vals) in    (* zero points are appended first when vals is longer than the record *)
   heap (fst r) = heap s /\ h_s (fst r) = h_s s /\ h_o (fst r) = h_o s /\ r_s (fst r) = h_s s /\ r_o (fst r) = h_o s /\
   match snd r with
-  | ONone => vals = [] /\ ints (fst r) = ints s
+  | ONone => vals = [] /\ ints (fst r) = cols
              \/ exists xs, Forall2 (q_assigned_int sc off) vals xs
-                           /\ length xs = length (nth a (ints s) []) /\ ints (fst r) = set_at (ints s) a xs
-  | OErr e => ints (fst r) = ints s /\
+                           /\ length xs = length (nth a cols []) /\ ints (fst r) = set_at cols a xs
+  | OErr e => ints (fst r) = cols /\
               (e = EOverflow /\ (exists v, In v vals /\ ~ fitsP (q_store v sc off))
-               \/ e = EValue /\ length vals <> length (nth a (ints s) []))
+               \/ e = EValue /\ length vals <> length (nth a cols []))
   | OFile _ => False
   end.
 Proof. exact q_assign_after. Qed.
@@ -115,14 +116,15 @@ Theorem C11_assign_float : forall ops s0 a vals, wf s0 -> (a < 3)%nat ->
   let s := fst (f_run s0 ops) in
   let sc := at3 fl None (get fl (heap s) (h_s s)) a in let off := at3 fl None (get fl (heap s) (h_o s)) a in
   let r := f_step s (Assign a vals) in
+  let cols := grow (ints s) (length vals) in
   heap (fst r) = heap s /\ h_s (fst r) = h_s s /\ h_o (fst r) = h_o s /\ r_s (fst r) = h_s s /\ r_o (fst r) = h_o s /\
   match snd r with
-  | ONone => vals = [] /\ ints (fst r) = ints s
+  | ONone => vals = [] /\ ints (fst r) = cols
              \/ exists xs, Forall2 (fun v X => f_store v sc off = Some X /\ fitsP X) vals xs
-                           /\ length xs = length (nth a (ints s) []) /\ ints (fst r) = set_at (ints s) a xs
-  | OErr e => ints (fst r) = ints s /\
+                           /\ length xs = length (nth a cols []) /\ ints (fst r) = set_at cols a xs
+  | OErr e => ints (fst r) = cols /\
               (e = EOverflow /\ (exists v, In v vals /\ f_store_checked v sc off = Err EOverflow)
-               \/ e = EValue /\ length vals <> length (nth a (ints s) []))
+               \/ e = EValue /\ length vals <> length (nth a cols []))
   | OFile _ => False
   end.
 Proof. exact f_assign_after. Qed.
